@@ -151,6 +151,22 @@ func c12(c *ctx) {
 					ent[k] = 1 + r.Intn(len(g.Rules)-1)
 				}
 			}
+			// a step that enters through another rule must be as tractable as the steps through the first rule are (the
+			// inputs were chosen for R0 only): plain PEG evaluation within the step limit, nesting within the bound. A
+			// thorough run once met H2 <- H3 '\n' / H3, H3 <- . H2? entered directly on an 18 000-rune input: exponential
+			// without memoisation, 18 000 levels deep with it — the child hit its CPU and memory limits (a false alarm).
+			for k := range ent {
+				if ent[k] < 0 {
+					continue
+				}
+				it := ref.New(g, h[k])
+				it.Limit = 400000
+				it.Parse(g.Rules[ent[k]].Name)
+				if it.Over || it.MaxDepth >= 200 {
+					ent[k] = -1
+					c.run.Count("steps_through_another_rule_left_to_the_first_rule_(intractable_there)", 1)
+				}
+			}
 			hcs = append(hcs, &hcase{cs, h, ent})
 			// 255 short inputs between two long ones, then the first long one again: whatever the parser counts per
 			// Reset (a generation, an epoch) in its integer type U comes round after 256 Resets when U is uint8;
